@@ -6,6 +6,7 @@
    refutations.  Every theorem quantifies over every label list (= every interleaving of
    handle_event / stop critical sections, thread steps and clock ticks), without length bound. *)
 Require Import WD.Base.Prelude WD.Base.Lts WD.Model.Debouncer WD.Proofs.DebouncerProofs.
+Require WD.Model.Restart WD.Proofs.RestartProofs WD.Model.ShellTrick WD.Proofs.ShellTrickProofs.
 
 (* Safety, "exactly once, in arrival order": the delivered batches, concatenated, followed by what is
    still pending (swapped-out batch whose callback has not run yet, then _events) are exactly the
@@ -118,3 +119,87 @@ Proof. eexists. vm_compute. repeat split. Qed.
 Example C18_debouncer_repaired_witness :
   exists s, run (deb_lts true 0) init_state [Stop; Thr; Thr; Thr; Thr] = Some s /\ pcs s = PDone.
 Proof. eexists. vm_compute. repeat split. Qed.
+
+(* ================================================================== Part 3: ShellCommandTrick *)
+Module Shell.
+Import WD.Model.ShellTrick WD.Proofs.ShellTrickProofs.
+
+(* With wait_for_process or drop_during_process (or both), for every interleaving of events (handled
+   one at a time by the dispatching thread), child exits and watcher steps: at most one command is
+   running, in every state and right after every Popen. *)
+Theorem C18_shell_no_overlap : forall wait_for_process drop_during_process,
+  (wait_for_process || drop_during_process)%bool = true ->
+  forall tr s, run (shell_lts wait_for_process drop_during_process) init_state tr = Some s ->
+  (alive_children s <= 1)%nat /\ (max_alive s <= 1)%nat.
+Proof. exact shell_no_overlap. Qed.
+Print Assumptions C18_shell_no_overlap.
+
+(* the hypothesis is needed: without either option two events give two running commands *)
+Theorem C18_shell_overlap_without_options_refuted : exists tr s,
+  run (shell_lts false false) init_state tr = Some s /\ alive_children s = 2%nat.
+Proof. exact shell_overlap_without_options. Qed.
+Print Assumptions C18_shell_overlap_without_options_refuted.
+
+Example C18_shell_nonvacuous :
+  exists s, run (shell_lts false true) init_state [Event; Event; Exit 0; Event; WStep 0; Event] = Some s /\
+    started s = 2%nat /\ dropped s = 2%nat /\ alive_children s = 1%nat.
+Proof. eexists. vm_compute. repeat split. Qed.
+End Shell.
+
+(* ================================================================== Part 2: AutoRestartTrick *)
+Module Restart.
+Import WD.Model.Restart WD.Proofs.RestartProofs.
+
+(* Full statements about the REPAIRED protocol (fixes/F12-autorestart-serialise-restart.diff:
+   _restart_process runs under _stopping_lock), [serial = true].  They are NOT proved in this
+   development yet (kept as Definitions, per CONVENTIONS); what is machine-checked below are the
+   refutations for the pinned protocol and that the witness schedule is not a run of the repaired one.
+   The repaired code is checked against these statements by the oracle on every run (harness). *)
+Definition C18_restart_one_child_full : Prop :=
+  forall restart_on_exit kill_after tr s,
+    run (restart_lts true restart_on_exit kill_after) (init_state restart_on_exit) tr = Some s ->
+    (alive_children s <= 1)%nat /\ (max_alive s <= 1)%nat.
+
+(* after stop() returned: no child alive, never a Spawn again, the watcher that was current is
+   finished and every other watcher is finished or has been told to stop *)
+Definition C18_restart_after_stop_full : Prop :=
+  forall restart_on_exit kill_after tr s,
+    run (restart_lts true restart_on_exit kill_after) (init_state restart_on_exit) tr = Some s ->
+    mpcs s = MReturned ->
+    alive_children s = 0%nat /\
+    forallb (fun w => negb (watcher_live w)) (watchers s) = true /\
+    forall tr' s', run (restart_lts true restart_on_exit kill_after) s tr' = Some s' ->
+      spawns s' = spawns s /\ alive_children s' = 0%nat.
+
+(* every completed _restart_process call made while the trick is not stopping starts exactly one child *)
+Definition C18_restart_count_full : Prop :=
+  forall restart_on_exit kill_after tr s,
+    run (restart_lts true restart_on_exit kill_after) (init_state restart_on_exit) tr = Some s ->
+    spawns s = S (triggers_done s) /\ length (children s) = spawns s.
+
+(* Pinned protocol (no lock around _restart_process): a self-exit restart racing an event restart
+   leaves two children alive, self.process pointing at the younger one (the other is orphaned) ... *)
+Theorem C18_restart_two_children_refuted : exists tr s,
+  run (restart_lts false true 4) (init_state true) tr = Some s /\ alive_children s = 2%nat /\ process s = Some 2%nat.
+Proof. exact two_children_pinned. Qed.
+Print Assumptions C18_restart_two_children_refuted.
+
+(* ... and the orphan is still alive after stop() has returned. *)
+Theorem C18_restart_orphan_survives_stop_refuted : exists tr s,
+  run (restart_lts false true 4) (init_state true) tr = Some s /\ mpcs s = MReturned /\ alive_children s = 1%nat.
+Proof. exact orphan_survives_stop_pinned. Qed.
+Print Assumptions C18_restart_orphan_survives_stop_refuted.
+
+(* Pinned protocol: stop() racing an event restart that is still waiting for the child to die
+   returns early (flag _is_process_stopping) while the child is alive. *)
+Theorem C18_restart_alive_after_stop_refuted : exists tr s,
+  run (restart_lts false true 4) (init_state true) tr = Some s /\ mpcs s = MReturned /\ alive_children s = 1%nat.
+Proof. exact alive_after_stop_pinned. Qed.
+Print Assumptions C18_restart_alive_after_stop_refuted.
+
+(* The race schedule is not a run of the repaired protocol (the second restarter blocks on the lock). *)
+Theorem C18_restart_race_blocked_when_serial_partial :
+  run (restart_lts true true 4) (init_state true) race_trace = None.
+Proof. exact race_trace_not_serial. Qed.
+Print Assumptions C18_restart_race_blocked_when_serial_partial.
+End Restart.
